@@ -1,10 +1,13 @@
-import core
+import core, os, subprocess, sys
 
 LEVEL = 'translation_validation'
 RULE = ('validator: PtrTrampoline (the real fixOrigin path) is run, without diverting the target, on every function of the linked population (independent pclntab parse); '
         'each built trampoline is decoded in lock-step with the original prologue by the reference decoder and must be the same instructions with every PC-relative operand '
         'resolving to the same absolute address, ending in a jump back to entry+copied; refusals must leave target and placeholder untouched; '
-        'distinct = distinct copied-prefix opcode shapes + refusal reasons')
+        'execution monitor: a generated zoo of Go functions (leaf, wrapper, two early branches, 256B-8KiB frames, methods, variadic, float/string/many args, recursive, '
+        'two results, deferred) is mocked through the public API with Origin(&placeholder).Apply(cb -> 3*origin+1) and called warm, on fresh goroutines and at every depth of a '
+        '64-byte-step recursion sweep across stack-growth boundaries; result and callback count must be those of the unmocked function; '
+        'distinct = distinct copied-prefix opcode shapes + refusal reasons + zoo (shape, placeholder side, stack-check) classes')
 
 
 def run(ctx):
@@ -17,5 +20,16 @@ def run(ctx):
     b = ctx.build('c03', core.MODPATH + '/internal/patch', files)
     ch = ctx.child(b, run='TestC03Validator', timeout=1200)
     ctx.absorb(ch, what='TestC03Validator')
+    # execution monitor: generated zoo through the public API
+    gdir = os.path.join(core.BUILD, 'gen', 'c03', str(ctx.seed))
+    ntargets = 48 if not ctx.thorough else 240
+    subprocess.check_call([sys.executable, os.path.join(core.VERIF, 'gen', 'c03zoo.py'), str(ctx.seed), str(ntargets), gdir])
+    zfiles = {}
+    zfiles.update(core.vmon_files())
+    zfiles.update(core.dir_files('harness/c03zoo', 'zzverif/c03zoo'))
+    zfiles['zzverif/c03zoo/zoo_gen.go'] = os.path.join(gdir, 'zoo_gen.go')
+    zb = ctx.build('c03zoo', core.MODPATH + '/zzverif/c03zoo', zfiles)
+    ch = ctx.child(zb, run='TestC03Zoo', timeout=1800, env={'VERIF_C03_SWEEP': '160' if not ctx.thorough else '400'})
+    ctx.absorb(ch, crash_key='C03/zoo-crash', what='TestC03Zoo')
     ctx.extra_cov['programs'] = int(ctx.stats.get('trampolines_valid', 0))
     ctx.extra_cov['disagreements_checked'] = int(sum(v for k, v in ctx.stats.items() if k.startswith('pcrel:')))
